@@ -21,21 +21,21 @@ const sseCT = "text/event-stream"
 
 // core is the recording, fault-injecting bottom of every writer shape.
 type core struct {
-	h           http.Header
-	log         []string
-	body        strings.Builder
-	flushedLen  int // body length covered by the last successful flush
-	writes      int
-	flushes     int // flush attempts
-	failWrite   int // index of the failing Write (-1 none)
-	acceptPct   int // share of the failing Write's bytes accepted
-	failFlush   int // index of the failing flush attempt (-1 none); only shapes with FlushError
-	canFailFlush bool
-	status      int
-	opErr       error // first underlying error during the current operation
-	headerFlushedOK bool // a flush succeeded while Content-Type was text/event-stream
-	violations  []string
-	tampered    bool
+	h               http.Header
+	log             []string
+	body            strings.Builder
+	flushedLen      int // body length covered by the last successful flush
+	writes          int
+	flushes         int // flush attempts
+	failWrite       int // index of the failing Write (-1 none)
+	acceptPct       int // share of the failing Write's bytes accepted
+	failFlush       int // index of the failing flush attempt (-1 none); only shapes with FlushError
+	canFailFlush    bool
+	status          int
+	opErr           error // first underlying error during the current operation
+	headerFlushedOK bool  // a flush succeeded while Content-Type was text/event-stream
+	violations      []string
+	tampered        bool
 }
 
 func newCore(failWrite, acceptPct, failFlush int) *core {
@@ -116,7 +116,10 @@ func (w wFlushErr) FlushError() error { return w.core.flush() }
 
 type wBoth struct{ *core }
 
-func (w wBoth) Flush()            { w.core.log = append(w.core.log, "plain Flush() used although FlushError exists"); _ = w.core.flush() }
+func (w wBoth) Flush() {
+	w.core.log = append(w.core.log, "plain Flush() used although FlushError exists")
+	_ = w.core.flush()
+}
 func (w wBoth) FlushError() error { return w.core.flush() }
 
 // wWrap hides everything but the basic interface and Unwrap.
